@@ -503,6 +503,11 @@ func Run(args []string) {
 		cfgs = append(cfgs, Config{Seed: seed*977 + uint64(i), Workers: []int{4, 8, 6}[i%3], Calls: 3 + i%3, Shared: 1 + i%2, Size: 1000,
 			Procs: []int{16, 8, 4}[i%3], ColdOpen: false, Rounds: 40, Readers: []int{0, 3, 2}[i%3], Filler: []int{0, 40, 25}[i%3]})
 	}
+	// listings against edits: readers in a loop over long listings while several workers edit, truly in parallel
+	for i := 0; i < 3+runs/100; i++ {
+		cfgs = append(cfgs, Config{Seed: seed*7717 + uint64(i), Workers: 6, Calls: 10, Shared: 2, Size: 1000, Procs: 16, ColdOpen: false, Rounds: 12,
+			Readers: 6, Filler: 60})
+	}
 	results := make([]*Result, len(cfgs))
 	hx.Parallel(len(cfgs), 4, func(i int) {
 		b, _ := json.Marshal(cfgs[i])
